@@ -165,6 +165,8 @@ func check(c Case) *vcore.Violation {
 	switch c.Kind {
 	case "apply":
 		var a report.ApplyAction
+		// the decoder has been used before (all flags set): decoding assigns, it does not add to what was there
+		_ = a.Unmarshal([]byte{0xff, 0xff})
 		err := a.Unmarshal(c.Bytes)
 		if len(c.Bytes) < 1 {
 			if err == nil {
@@ -191,6 +193,7 @@ func check(c Case) *vcore.Violation {
 		}
 	case "rpt":
 		var r report.ReportingTrigger
+		_ = r.Unmarshal([]byte{0xff, 0xff, 0xff})
 		err := r.Unmarshal(c.Bytes)
 		if len(c.Bytes) < 2 {
 			if err == nil {
